@@ -223,11 +223,16 @@ package fiber
 //@   props C12 C05 C07
 //@   requires bound: r.c != nil && r.c.app != nil && r.c.fasthttp != nil
 //@   assumes app-wf: wfImmutable(r.c)   // start-up state; precondition of (*DefaultCtx).Cookies (zz_contracts_c06_verif.go)
-//@   modifies r.c.flashMessages, elems(r.c.flashMessages), jarHas, jarVal, jarAttr, jarVisits, jarVisitAtNext
+//@   modifies r.c.flashMessages, elems(r.c.flashMessages), jarHas, jarVal, jarAttr, jarVisits, jarVisitAtNext, ckKey, ckVal, ckAttr, jcPath, jcExp, jcPooled
 //@   modifies heap(C_fiber_redirectionMsgs)   // generator artefact: &r.c.flashMessages is passed to the decoder through a scratch cell (copy-in/copy-out)
 //@   atcall (*redirectionMsgs).UnmarshalMsg: decodes-the-presented-cookie: str(bts) == flashIn(r.c) && *z == r.c.flashMessages
 //@   ensures malformed-yields-none: !wellFormed(old(flashIn(r.c))) ==> len(r.c.flashMessages) == 0
-//@   ensures consumed-cookie-expired: wellFormed(old(flashIn(r.c))) ==> jarHas[respH(r.c)]["fiber_flash"] && attrExpired(jarAttr[respH(r.c)]["fiber_flash"])
+// The consumed cookie is expired at the client: the response replaces it by an empty cookie of the same name whose
+// Expires lies in the past (fasthttp.CookieExpireDelete) and whose Path is "/", the path the flash cookie is issued for -
+// an expiry without a Path attribute is applied by the client to the default path of this request and leaves the
+// cookie in place below a directory (replay/fixed/c12_expiry_path_test.go).
+//@   atcall (*DefaultCtx).Cookie: expires-the-flash-cookie-for-its-path: cookie.Name == "fiber_flash" && cookie.Value == "" && cookie.Path == "/" && cookie.Domain == "" && !cookie.SessionOnly   // that Expires is fasthttp.CookieExpireDelete is not expressible (opaque time.Time values cannot be compared in clauses): covered by the replay and by the bounded round trip
+//@   ensures consumed-cookie-expired: wellFormed(old(flashIn(r.c))) ==> jarHas[respH(r.c)]["fiber_flash"] && jarVal[respH(r.c)]["fiber_flash"] == ""
 //@   ensures no-more-messages-than-bytes: len(r.c.flashMessages) <= len(old(flashIn(r.c)))
 //@   ensures malformed-response-untouched: !wellFormed(old(flashIn(r.c))) ==> jarHas == old(jarHas) && jarVal == old(jarVal) && jarAttr == old(jarAttr)
 
